@@ -110,6 +110,34 @@ Definition decode_slip (bs : list N) : res slip :=
   then Ok (mkSlip pk (be_dec am) (be_dec bid) (be_dec ord) idx ty)
   else Err.
 
+(* Slip::get_utxoset_key: the 59-byte key of the UTXO set (field order differs
+   from the wire format: location first, then amount) *)
+Definition encode_utxokey (s : slip) : list N :=
+  concat [ s_pk s;
+           be_enc 8 (s_block_id s);
+           be_enc 8 (s_tx_ordinal s);
+           be_enc 1 (s_index s);
+           be_enc 8 (s_amount s);
+           be_enc 1 (s_type s) ].
+
+(* Slip::parse_slip_from_utxokey (the key is a [u8;59]) *)
+Definition decode_utxokey (key : list N) : res slip :=
+  do pk <- sl 111 0 33 key;
+  do bid <- sl 112 33 41 key;
+  do ord <- sl 113 41 49 key;
+  do idx <- ix 114 49 key;
+  do am <- sl 115 50 58 key;
+  do ty <- ix 116 58 key;
+  if ty <? 10 then Ok (mkSlip pk (be_dec am) (be_dec bid) (be_dec ord) idx ty) else Err.
+
+(* Slip::serialize_input_for_signature = serialize_output_for_signature: the
+   part of a slip that a transaction signature covers.  block_id and tx_ordinal
+   are NOT in it (commented out in the source). *)
+Definition sig_bytes_slip (s : slip) : list N :=
+  concat [ s_pk s; be_enc 8 (s_amount s); be_enc 1 (s_index s); be_enc 1 (s_type s) ].
+
+Definition SIG_SLIP_SIZE : N := 43.
+
 Definition eqb_slip (a b : slip) : bool :=
   beq (s_pk a) (s_pk b) && (s_amount a =? s_amount b) && (s_block_id a =? s_block_id b)
   && (s_tx_ordinal a =? s_tx_ordinal b) && (s_index a =? s_index b) && (s_type a =? s_type b).
@@ -221,6 +249,21 @@ Definition decode_tx (bs : list N) : res tx :=
   (* fix eeb4ec7: the payload of a golden ticket transaction is a 97-byte GoldenTicket *)
   if (ty =? TT_GOLDEN_TICKET) && negb (message_len =? 97) then Err else
   Ok (mkTx (be_dec b_ts) inputs outputs message ty (be_dec b_rep) sig path).
+
+(* Transaction::serialize_for_signature: what hash_for_signature hashes and the
+   sender signs.  Not covered: signature, path, block_id / tx_ordinal of every
+   slip, and the boundary between inputs and outputs (no counts are written). *)
+Definition sig_bytes_tx (t : tx) : list N :=
+  concat [ be_enc 8 (t_ts t);
+           concat (map sig_bytes_slip (t_from t));
+           concat (map sig_bytes_slip (t_to t));
+           be_enc 4 (t_repl t);
+           be_enc 4 (t_type t);             (* (transaction_type as u32) *)
+           t_data t ].
+
+(* Hop::generate / validate_routing_path: the bytes a routing hop signs *)
+Definition sig_bytes_hop (tx_signature : list N) (to_pk : list N) : list N :=
+  tx_signature ++ to_pk.
 
 (* the size a transaction buffer declares in its own 16-byte prefix *)
 Definition tx_declared_size (bs : list N) : N :=
@@ -429,6 +472,34 @@ Definition block_after_wire (bt : N) (b : block) : block :=
     (b_total_fees b) (b_total_fees_new b) (b_total_fees_atr b)
     (b_fee_per_byte b) (b_total_fees_cumulative b)
     txs ty.
+
+(* Block::generate_lite_block: every header figure, creator and signature are
+   copied from the full block; the transactions are replaced (SPV placeholders,
+   property C18) and the merkle root is the one computed over them *)
+Definition lite_block_of (b : block) (txs : list tx) (merkle : list N) : block :=
+  mkBlock (b_id b) (b_ts b) (b_prev b) (b_creator b) merkle (b_sig b)
+    (b_graveyard b) (b_treasury b) (b_burnfee b) (b_difficulty b)
+    (b_avg_total_fees b) (b_avg_fee_per_byte b) (b_avg_nolan_rebroadcast b) (b_prev_unpaid b)
+    (b_avg_total_fees_new b) (b_avg_total_fees_atr b)
+    (b_avg_payout_routing b) (b_avg_payout_mining b) (b_avg_payout_treasury b)
+    (b_avg_payout_graveyard b) (b_avg_payout_atr b)
+    (b_total_payout_routing b) (b_total_payout_mining b) (b_total_payout_treasury b)
+    (b_total_payout_graveyard b) (b_total_payout_atr b)
+    (b_total_fees b) (b_total_fees_new b) (b_total_fees_atr b)
+    (b_fee_per_byte b) (b_total_fees_cumulative b)
+    txs BT_FULL.
+
+(* Block::serialize_for_signature: the header bytes behind pre_hash, hash and the
+   creator signature (merkle root included; signature, the total_* figures,
+   fee_per_byte and the transactions themselves are not) *)
+Definition sig_bytes_block (b : block) : list N :=
+  concat [ be_enc 8 (b_id b); be_enc 8 (b_ts b); b_prev b; b_creator b; b_merkle b;
+           be_enc 8 (b_graveyard b); be_enc 8 (b_treasury b); be_enc 8 (b_burnfee b);
+           be_enc 8 (b_difficulty b); be_enc 8 (b_avg_fee_per_byte b);
+           be_enc 8 (b_avg_nolan_rebroadcast b); be_enc 8 (b_prev_unpaid b);
+           be_enc 8 (b_avg_total_fees b); be_enc 8 (b_avg_total_fees_new b);
+           be_enc 8 (b_avg_total_fees_atr b); be_enc 8 (b_avg_payout_routing b);
+           be_enc 8 (b_avg_payout_mining b) ].
 
 Definition size_block (bt : N) (b : block) : N :=
   BLOCK_HEADER_SIZE +
